@@ -373,6 +373,9 @@ const RAW_CLASSES: &[(&str, &[char])] = &[
     ("[\\s--\\n]", &[' ', '\t']),
     ("[a\\-c]", &['a', '-', 'c']),
     ("[\\]\\[]", &[']', '[']),
+    ("[\\\\\"]", &['\\', '"']),
+    ("[^\\\"]", &['a', '\\']),
+    ("[\"\\\\]", &['\\', '"']),
 ];
 
 fn gen_class(rng: &mut Rng, al: &Alphabet) -> Rx {
@@ -477,6 +480,17 @@ pub fn gen_lookahead_rx(rng: &mut Rng, al: &Alphabet) -> Rx {
 // Configurations
 // ---------------------------------------------------------------------------------------------
 
+/// Token types are arbitrary numbers: small, medium, and values around powers of two / beyond
+/// 16 bits (anything that hashes, masks or truncates a token type should meet its edge cases).
+pub fn gen_token_type(rng: &mut Rng) -> usize {
+    match rng.below(20) {
+        0..=5 => rng.below(6),
+        6..=13 => rng.below(60),
+        14..=16 => 60 + rng.below(200),
+        _ => *rng.pick(&[63, 64, 65, 127, 128, 129, 191, 192, 255, 256, 257, 1023, 1024, 4095, 4096, 65535, 65536, 70000]),
+    }
+}
+
 pub struct GenConfig {
     pub config: Config,
     /// per mode, per pattern: the expression (for witnesses)
@@ -500,7 +514,7 @@ pub fn gen_config(rng: &mut Rng, al: &Alphabet, k: &Knobs) -> GenConfig {
     let pool_n = rng.range(3, 9).max(k.patterns.1);
     let mut pool: Vec<usize> = Vec::new();
     while pool.len() < pool_n {
-        let t = if rng.chance(1, 3) { rng.below(6) } else { rng.below(60) };
+        let t = gen_token_type(rng);
         if !pool.contains(&t) {
             pool.push(t);
         }
@@ -551,7 +565,7 @@ pub fn gen_config(rng: &mut Rng, al: &Alphabet, k: &Knobs) -> GenConfig {
                 } else if rng.chance(1, 2) {
                     *rng.pick(&pool)
                 } else {
-                    rng.below(70)
+                    gen_token_type(rng)
                 };
                 if !transitions.iter().any(|(x, _)| *x == t) {
                     transitions.push((t, rng.below(n_modes)));
@@ -714,9 +728,9 @@ pub fn near_variant(rng: &mut Rng, base: &Config, kind: &str, al: &Alphabet) -> 
             }
             let pi = rng.below(np);
             let used: Vec<usize> = c[mi].patterns.iter().map(|p| p.token_type).collect();
-            let mut t = rng.below(70);
+            let mut t = gen_token_type(rng);
             while used.contains(&t) {
-                t = rng.below(70);
+                t = gen_token_type(rng);
             }
             c[mi].patterns[pi].token_type = t;
         }
